@@ -156,6 +156,29 @@ def evaluate(cases, rep, tier):
             between = C.run_model([C.Case("spec_is_prime", [q]) for q in range(t[2], t[1])])
             if any(b == "1 1" for b in between):
                 counter.append({"input": f"P1 {t[1]} for P {t[2]}", "expected": "least prime >= P", "observed": "a smaller prime exists", "oracle": "Spec.Prime"})
+    # producing AND consuming symbols at the top of the 24-bit ESI range on padded blocks (ISI = ESI + K' - K reaches
+    # 2^24 + K' - K - 1): encoder and decoder must not panic in either profile and the decoder must return the block
+    from props import codecgen as CG
+    top = []
+    rt = C.Rng(C.get_seed()).fork("C15top")
+    for k in (1, 11, 13, 102, 9, 27) if tier == "quick" else (1, 2, 9, 11, 13, 19, 27, 102, 250, 600):
+        kp = next(x for x in kps if x >= k)
+        pad = kp - k
+        lost = rt.below(k)
+        reps = sorted(set([(1 << 24) - 1, (1 << 24) - 2, (1 << 24) - max(1, pad), (1 << 24) - pad - 1, (1 << 24) - pad - 2]))
+        esis = [e for e in range(k) if e != lost] + [e for e in reps if e >= k]
+        data = CG.rand_data(rt, k * 2)
+        top.append((CG.sbd_case(rt, k, 2, 1, 1, rt.choice([0, 1, 100000]), [[e] for e in rt.shuffle(esis)], data), data))
+    for prof in PROFILES:
+        for (c, data), r in zip(top, C.run_impl_crashsafe([c for c, _ in top], prof, chunk=1, timeout=600)):
+            t = r.split()
+            nb = c.args[5]
+            if t[0] != "1":
+                counter.append({"input": c.impl_line()[:400], "expected": "no panic when consuming repair symbols with ESIs up to 2^24-1 on a padded block", "observed": r[:80], "profile": prof, "oracle": "C15: producing or consuming any symbol reachable from a 24-bit ESI never panics"})
+                break
+            if t[nb] == "1" and [int(x) for x in t[1 + nb :]] != data:
+                counter.append({"input": c.impl_line()[:400], "expected": "the block", "observed": "different bytes", "profile": prof, "oracle": "C15/C01: symbols at the top of the ESI range"})
+                break
     nt = len(set(c.key() for c in cases if c.fn == "tuple"))
     kinds = {}
     for c in cases:
@@ -164,7 +187,7 @@ def evaluate(cases, rep, tier):
             "stats": {"evaluations": len(cases) * 4 + len(tc) + 3 * len(ec), "distinct_nontrivial": nt, "exhaustive": False,
                       "exhaustive_part": "the 8 look-up functions over K = 0..56403",
                       "samples": [tc[7][1].impl_line() + " -> " + impl[tc[7][0]], ec[3][0].impl_line() + " -> " + eimpl["release"][3]],
-                      "input_distribution": kinds}}
+                      "top_of_esi_range_decodes": len(top) * len(PROFILES), "input_distribution": kinds}}
 
 
 def kernel_ok(c):
